@@ -2233,8 +2233,8 @@ class Cluster(shapes.Shape):
             for data in all_data:
                 self.add_random_users(*data)
         else:
-            assert (isinstance(num_users, int))
-            assert (isinstance(min_dist_ratio, float))
+            assert (isinstance(num_users, (int, np.integer)))
+            assert (isinstance(min_dist_ratio, (int, float, np.number)))
             assert (user_color is None or isinstance(user_color, str))
             for _ in range(num_users):
                 # Note that here cell_ids will be a single value, as well
